@@ -8,6 +8,7 @@ import (
 	"go/types"
 	"os"
 	"regexp"
+	"strconv"
 	"strings"
 
 	"golang.org/x/tools/go/ssa"
@@ -61,8 +62,13 @@ func concreteBytes(st *symState, v SV) ([]byte, bool) {
 	// buffer is looked up in the buffer it was cut from
 	try := func(base string, lo int64) ([]byte, bool) {
 		out := make([]byte, v.Len.N)
+		_, dirty := st.heap["written:"+base]
+		zeroed := strings.HasPrefix(base, "cell:makeslice#") && !strings.Contains(base, "[") && !dirty // a make([]T, const) nothing unknown wrote to
 		for i := int64(0); i < v.Len.N; i++ {
 			e, ok := st.heap[fmt.Sprintf("%s[%d]", base, lo+i)]
+			if !ok && zeroed {
+				continue // still the zero value
+			}
 			if !ok || !(e.K == "int" && e.Known) {
 				return nil, false
 			}
@@ -235,6 +241,16 @@ func msgScenario(c *Ctx, mm msgMatcher, mc msgCase) *Scenario {
 					for i := int64(0); i < u.Len(); i++ {
 						put(u.Elem(), fmt.Sprintf("%s[%d]", addr, i))
 					}
+				case *types.Slice:
+					// a slice target is filled up to its length (binary.Read reads len(slice) elements)
+					tv, ok := st.heap[addr]
+					if !ok || tv.Len == nil || !tv.Len.Known {
+						failed = true
+						return
+					}
+					for i := int64(0); i < tv.Len.N; i++ {
+						put(u.Elem(), fmt.Sprintf("%s[%d]", tv.Desc, i))
+					}
 				case *types.Basic:
 					n, okSz := sizeOfFixed(t)
 					if !okSz || pos+n > int64(len(all)) {
@@ -256,6 +272,9 @@ func msgScenario(c *Ctx, mm msgMatcher, mc msgCase) *Scenario {
 				}
 			}
 			put(ptr.Elem(), args[2].Desc)
+			if os.Getenv("L4DEBUG") == "tbl" {
+				fmt.Println("DBGBR", args[2].Desc, typeStr(ptr.Elem()), "failed", failed, "pos", pos, "len", len(all))
+			}
 			if failed {
 				return SV{K: "ref", Known: true, Desc: "io.ErrUnexpectedEOF"}, true
 			}
@@ -324,6 +343,49 @@ func msgScenario(c *Ctx, mm msgMatcher, mc msgCase) *Scenario {
 					}
 				}
 			}
+		case callee == "strings.Split" && len(args) == 2:
+			a, ok1 := concreteBytes(st, args[0])
+			b, ok2 := concreteBytes(st, args[1])
+			if ok1 && ok2 {
+				parts := strings.Split(string(a), string(b))
+				id := ev.fresh("split")
+				for i, p := range parts {
+					st.heap[fmt.Sprintf("%s[%d]", id, i)] = symStr(p)
+				}
+				l := symInt(int64(len(parts)))
+				return SV{K: "slice", Desc: id, Len: &l, Cap: &l, Known: true}, true
+			}
+		case callee == "strconv.ParseUint" && len(args) == 3 && args[1].K == "int" && args[1].Known && args[2].K == "int" && args[2].Known:
+			if a, ok := concreteBytes(st, args[0]); ok {
+				v, err := strconv.ParseUint(string(a), int(args[1].N), int(args[2].N))
+				if err != nil {
+					return symTuple(symInt(0), SV{K: "ref", Known: true, Desc: "errParseUint"}), true
+				}
+				return symTuple(symInt(int64(v)), symNil()), true
+			}
+		case callee == "strconv.Itoa":
+			return SV{K: "str", Desc: "itoa(" + args[0].Desc + ")"}, true
+		case (strings.HasPrefix(callee, "(encoding/binary.littleEndian).PutUint") || strings.HasPrefix(callee, "(encoding/binary.bigEndian).PutUint")) && len(args) >= 2:
+			buf, v := args[len(args)-2], args[len(args)-1]
+			bits := 16
+			fmt.Sscan(callee[strings.LastIndex(callee, "PutUint")+7:], &bits)
+			if v.K == "int" && v.Known && buf.Len != nil && buf.Len.Known && buf.Len.N >= int64(bits/8) {
+				base, off := sliceBase(buf.Desc)
+				for i := 0; i < bits/8; i++ {
+					shift := uint(8 * i)
+					if strings.Contains(callee, "bigEndian") {
+						shift = uint(bits - 8 - 8*i)
+					}
+					b := symInt(int64(byte(uint64(v.N) >> shift)))
+					st.heap[fmt.Sprintf("%s[%d]", buf.Desc, i)] = b
+					st.heap[fmt.Sprintf("%s[%d]", base, off+int64(i))] = b
+				}
+				return symOpaque("put"), true
+			}
+		case callee == "(net.IP).String":
+			return SV{K: "str", Desc: "ip(" + args[0].Desc + ")"}, true
+		case callee == "(*encoding/base64.Encoding).EncodeToString":
+			return SV{K: "str", Desc: "base64"}, true
 		case strings.HasSuffix(callee, "Replacer).ReplaceAll") && len(args) == 3:
 			return args[1], true // no placeholders in the configured values of the tables
 		case strings.Contains(callee, "context.Context.Value"), strings.HasSuffix(callee, "Replacer).Set"):
@@ -431,6 +493,106 @@ func varInitIsNewError(c *Ctx, pkgShort, name string) bool {
 	return pk != nil && (pk.Name == "errors" && se.Sel.Name == "New" || pk.Name == "fmt" && se.Sel.Name == "Errorf")
 }
 
+// rdpCR: an X.224 Connection Request TPDU in a TPKT: header fields can be overridden.
+type rdpHdr struct {
+	ver, rsv byte
+	lenDelta int
+	liDelta  int
+	typ      byte
+	dst, src uint16
+	class    byte
+	trailing int
+}
+
+func rdpCR(h rdpHdr, payload []byte) []byte {
+	total := 4 + 7 + len(payload) + h.lenDelta
+	li := 6 + len(payload) + h.liDelta
+	ver, typ := byte(3), byte(0xE0)
+	if h.ver != 0 {
+		ver = h.ver
+	}
+	if h.typ != 0 {
+		typ = h.typ
+	}
+	out := []byte{ver, h.rsv, byte(total >> 8), byte(total), byte(li), typ, byte(h.dst >> 8), byte(h.dst), byte(h.src >> 8), byte(h.src), h.class}
+	out = append(out, payload...)
+	for i := 0; i < h.trailing; i++ {
+		out = append(out, 0x41)
+	}
+	return out
+}
+
+func rdpNegReq(typ, flags byte, length uint16, protocols uint32) []byte {
+	return []byte{typ, flags, byte(length), byte(length >> 8), byte(protocols), byte(protocols >> 8), byte(protocols >> 16), byte(protocols >> 24)}
+}
+
+func rdpCorr(typ, flags byte, length uint16, id0 byte, crAt, reservedNonZeroAt int) []byte {
+	out := []byte{typ, flags, byte(length), byte(length >> 8)}
+	for i := 0; i < 16; i++ {
+		b := byte(0x61 + i)
+		if i == 0 {
+			b = id0
+		}
+		if i == crAt {
+			b = 0x0D
+		}
+		out = append(out, b)
+	}
+	for i := 0; i < 16; i++ {
+		b := byte(0)
+		if i == reservedNonZeroAt {
+			b = 1
+		}
+		out = append(out, b)
+	}
+	return out
+}
+
+func cat(parts ...[]byte) []byte {
+	var out []byte
+	for _, p := range parts {
+		out = append(out, p...)
+	}
+	return out
+}
+
+// rdpToken: a routing token as the matcher's RDPToken type lays it out (TPKT-like prefix, X.224 fields, then the
+// cookie text and CR LF); fields can be skewed.
+func rdpToken(cookie string, verDelta, lenDelta, liDelta int) []byte {
+	opt := append([]byte(cookie), 0x0D, 0x0A)
+	total := 11 + len(opt)
+	out := []byte{byte(3 + verDelta), 0, byte((total + lenDelta) >> 8), byte(total + lenDelta), byte(total - 5 + liDelta), 0xE0, 0, 0, 0, 0, 0}
+	return append(out, opt...)
+}
+
+func rdpCfgPorts(ports ...int64) func(h map[string]SV) {
+	base := rdpCfg("", "", "", "")
+	return func(h map[string]SV) {
+		base(h)
+		h["m.CookiePorts"] = symSlice("m.CookiePorts", int64(len(ports)))
+		for i, p := range ports {
+			h[fmt.Sprintf("m.CookiePorts[%d]", i)] = symInt(p)
+		}
+	}
+}
+
+func rdpCfg(hash, hashRe, info, infoRe string) func(h map[string]SV) {
+	return func(h map[string]SV) {
+		h["m.CookieHash"], h["m.CookieHashRegexp"] = symStr(hash), symStr(hashRe)
+		h["m.CustomInfo"], h["m.CustomInfoRegexp"] = symStr(info), symStr(infoRe)
+		h["m.cookieHashRegexp"], h["regexp:m.cookieHashRegexp"] = symRef("m.cookieHashRegexp", false), symStr(hashRe)
+		h["m.customInfoRegexp"], h["regexp:m.customInfoRegexp"] = symRef("m.customInfoRegexp", false), symStr(infoRe)
+		h["m.cookieIPs"], h["m.CookiePorts"] = symSlice("m.cookieIPs", 0), symSlice("m.CookiePorts", 0)
+	}
+}
+
+var (
+	rdpNeg     = rdpNegReq(1, 0, 8, 3)
+	rdpCookie  = []byte("Cookie: mstshash=user\r\n")
+	rdpCookie2 = []byte("Cookie: mstshash=other\r\n")
+	rdpCustom  = []byte("tsv://MS Terminal Services Plugin.1.Farm\r\n")
+)
+
 func winboxMsg(user string, keyLen int, parity byte, typ byte, extra int) []byte {
 	payload := append([]byte(user), 0)
 	for i := 0; i < keyLen; i++ {
@@ -490,6 +652,152 @@ func pgMsg(code uint32, body []byte) []byte {
 }
 
 var msgMatchers = []msgMatcher{
+	{
+		fn: "modules/l4rdp.(*MatchRDP).Match", cfgName: "rdp no filters", heap: rdpCfg("", "", "", ""),
+		cases: []msgCase{
+			{"negotiation request only", rdpCR(rdpHdr{}, rdpNeg), "yes"},
+			{"cookie and negotiation request", rdpCR(rdpHdr{}, cat(rdpCookie, rdpNeg)), "yes"},
+			{"cookie only", rdpCR(rdpHdr{}, rdpCookie), "yes"},
+			{"custom routing info and negotiation request", rdpCR(rdpHdr{}, cat(rdpCustom, rdpNeg)), "yes"},
+			{"negotiation request with correlation info", rdpCR(rdpHdr{}, cat(rdpNegReq(1, 8, 8, 3), rdpCorr(6, 0, 36, 0x61, -1, -1))), "yes"},
+			{"cookie, negotiation request, correlation info", rdpCR(rdpHdr{}, cat(rdpCookie, rdpNegReq(1, 8, 8, 11), rdpCorr(6, 0, 36, 0x61, -1, -1))), "yes"},
+			{"all protocols and flags", rdpCR(rdpHdr{}, cat(rdpNegReq(1, 0x0b, 8, 0x1f), rdpCorr(6, 0, 36, 0x61, -1, -1))), "yes"},
+			{"standard security (protocols 0)", rdpCR(rdpHdr{}, rdpNegReq(1, 0, 8, 0)), "yes"},
+			{"headers only", rdpCR(rdpHdr{}, nil), "no"},
+			{"correlation info announced but missing", rdpCR(rdpHdr{}, rdpNegReq(1, 8, 8, 3)), "no"},
+			{"correlation info without the flag", rdpCR(rdpHdr{}, cat(rdpNeg, rdpCorr(6, 0, 36, 0x61, -1, -1))), "no"},
+			{"correlation identity starting with 0x00", rdpCR(rdpHdr{}, cat(rdpNegReq(1, 8, 8, 3), rdpCorr(6, 0, 36, 0, -1, -1))), "no"},
+			{"correlation identity starting with 0xF4", rdpCR(rdpHdr{}, cat(rdpNegReq(1, 8, 8, 3), rdpCorr(6, 0, 36, 0xF4, -1, -1))), "no"},
+			{"correlation identity containing CR", rdpCR(rdpHdr{}, cat(rdpNegReq(1, 8, 8, 3), rdpCorr(6, 0, 36, 0x61, 9, -1))), "no"},
+			{"correlation reserved byte set", rdpCR(rdpHdr{}, cat(rdpNegReq(1, 8, 8, 3), rdpCorr(6, 0, 36, 0x61, -1, 5))), "no"},
+			{"correlation info of type 5", rdpCR(rdpHdr{}, cat(rdpNegReq(1, 8, 8, 3), rdpCorr(5, 0, 36, 0x61, -1, -1))), "no"},
+			{"correlation info with flags", rdpCR(rdpHdr{}, cat(rdpNegReq(1, 8, 8, 3), rdpCorr(6, 1, 36, 0x61, -1, -1))), "no"},
+			{"correlation info of length 35", rdpCR(rdpHdr{}, cat(rdpNegReq(1, 8, 8, 3), rdpCorr(6, 0, 35, 0x61, -1, -1))), "no"},
+			{"negotiation request of type 2", rdpCR(rdpHdr{}, rdpNegReq(2, 0, 8, 3)), "no"},
+			{"negotiation request of length 9", rdpCR(rdpHdr{}, rdpNegReq(1, 0, 9, 3)), "no"},
+			{"negotiation request with an unknown flag", rdpCR(rdpHdr{}, rdpNegReq(1, 4, 8, 3)), "no"},
+			{"negotiation request with an unknown protocol", rdpCR(rdpHdr{}, rdpNegReq(1, 0, 8, 0x20)), "no"},
+			{"HYBRID without SSL", rdpCR(rdpHdr{}, rdpNegReq(1, 0, 8, 2)), "no"},
+			{"HYBRID_EX without HYBRID", rdpCR(rdpHdr{}, rdpNegReq(1, 0, 8, 9)), "no"},
+			{"seven bytes after the cookie", rdpCR(rdpHdr{}, cat(rdpCookie, rdpNeg[:7])), "no"},
+			{"one byte after the negotiation request", rdpCR(rdpHdr{}, cat(rdpNeg, []byte{0})), "no"},
+			{"TPKT version 2", rdpCR(rdpHdr{ver: 2}, rdpNeg), "no"},
+			{"TPKT reserved 1", rdpCR(rdpHdr{rsv: 1}, rdpNeg), "no"},
+			{"TPKT length one more than sent", rdpCR(rdpHdr{lenDelta: 1, liDelta: 1}, rdpNeg), "more"},
+			{"X.224 length indicator off by one", rdpCR(rdpHdr{liDelta: 1}, rdpNeg), "no"},
+			{"X.224 data TPDU", rdpCR(rdpHdr{typ: 0xF0}, rdpNeg), "no"},
+			{"X.224 destination reference set", rdpCR(rdpHdr{dst: 1}, rdpNeg), "no"},
+			{"X.224 source reference set", rdpCR(rdpHdr{src: 0x1234}, rdpNeg), "no"},
+			{"X.224 class 1", rdpCR(rdpHdr{class: 1}, rdpNeg), "no"},
+			{"a byte after the request", rdpCR(rdpHdr{trailing: 1}, rdpNeg), "no"},
+			{"five bytes", rdpCR(rdpHdr{}, rdpNeg)[:5], "more"},
+			{"headers without the payload", rdpCR(rdpHdr{}, rdpNeg)[:11], "more"},
+			{"payload cut", rdpCR(rdpHdr{}, cat(rdpCookie, rdpNeg))[:20], "more"},
+			{"empty", []byte{}, "more"},
+			{"http", []byte("GET / HTTP/1.1\r\nHost: example.com\r\n\r\n"), "no"},
+		},
+		source: "MS-RDPBCGR 2.2.1.1 Client X.224 Connection Request PDU: TPKT (version 3, reserved 0, length), X.224 CR (LI = length-5, code 0xE0, DST-REF 0, SRC-REF 0, class 0), optional routing token or cookie ending in CR LF, optional rdpNegReq (type 1, flags within 0x0B, length 8, protocols within 0x1F, HYBRID requires SSL, HYBRID_EX requires HYBRID), optional rdpCorrelationInfo (type 6, flags 0, length 36, identity not starting with 0x00/0xF4 and without 0x0D, reserved zero) only with the CORRELATION_INFO flag; nothing after the request",
+	},
+	{
+		fn: "modules/l4rdp.(*MatchRDP).Match", cfgName: "rdp cookie_port=3389", heap: rdpCfgPorts(3389),
+		cases: []msgCase{
+			{"token for 172.168.249.216:3389", rdpCR(rdpHdr{}, cat(rdpToken("Cookie: msts=3640205228.15629.0000", 0, 0, 0), rdpNeg)), "yes"},
+			{"token only", rdpCR(rdpHdr{}, rdpToken("Cookie: msts=3640205228.15629.0000", 0, 0, 0)), "yes"},
+			{"token for port 3390", rdpCR(rdpHdr{}, cat(rdpToken("Cookie: msts=3640205228.15885.0000", 0, 0, 0), rdpNeg)), "no"},
+			{"token with reserved 0001", rdpCR(rdpHdr{}, cat(rdpToken("Cookie: msts=3640205228.15629.0001", 0, 0, 0), rdpNeg)), "no"},
+			{"token with two parts", rdpCR(rdpHdr{}, cat(rdpToken("Cookie: msts=3640205228.156290000000", 0, 0, 0), rdpNeg)), "no"},
+			{"token with a non-numeric address", rdpCR(rdpHdr{}, cat(rdpToken("Cookie: msts=36402o5228.15629.0000", 0, 0, 0), rdpNeg)), "no"},
+			{"token with address 2^32", rdpCR(rdpHdr{}, cat(rdpToken("Cookie: msts=4294967296.15629.0000", 0, 0, 0), rdpNeg)), "no"},
+			{"token with port 65536+3389 swapped", rdpCR(rdpHdr{}, cat(rdpToken("Cookie: msts=3640205228.81165.0000", 0, 0, 0), rdpNeg)), "no"},
+			{"token with another prefix", rdpCR(rdpHdr{}, cat(rdpToken("Cookie: mstx=3640205228.15629.0000", 0, 0, 0), rdpNeg)), "no"},
+			{"token of version 4", rdpCR(rdpHdr{}, cat(rdpToken("Cookie: msts=3640205228.15629.0000", 1, 0, 0), rdpNeg)), "no"},
+			{"token with a wrong length", rdpCR(rdpHdr{}, cat(rdpToken("Cookie: msts=3640205228.15629.0000", 0, 1, 0), rdpNeg)), "no"},
+			{"token with a wrong length indicator", rdpCR(rdpHdr{}, cat(rdpToken("Cookie: msts=3640205228.15629.0000", 0, 0, 1), rdpNeg)), "no"},
+			{"mstshash cookie instead of a token", rdpCR(rdpHdr{}, cat(rdpCookie, rdpNeg)), "no"},
+			{"no token", rdpCR(rdpHdr{}, rdpNeg), "no"},
+		},
+		source: "cookie_port filter: the routing token 'Cookie: msts=<ip>.<port>.0000' (ip and port as decimal numbers of their byte-swapped binary form) names one of the configured ports",
+	},
+	{
+		fn: "modules/l4rdp.(*MatchRDP).Match", cfgName: "rdp cookie_port=3389,3390", heap: rdpCfgPorts(3389, 3390),
+		cases: []msgCase{
+			{"token for port 3390", rdpCR(rdpHdr{}, cat(rdpToken("Cookie: msts=3640205228.15885.0000", 0, 0, 0), rdpNeg)), "yes"},
+			{"token for port 3391", rdpCR(rdpHdr{}, cat(rdpToken("Cookie: msts=3640205228.16141.0000", 0, 0, 0), rdpNeg)), "no"},
+		},
+		source: "cookie_port filter with two ports",
+	},
+	{
+		fn: "modules/l4rdp.(*MatchRDP).Match", cfgName: "rdp cookie_hash=user", heap: rdpCfg("user", "", "", ""),
+		cases: []msgCase{
+			{"cookie of user", rdpCR(rdpHdr{}, cat(rdpCookie, rdpNeg)), "yes"},
+			{"cookie of other", rdpCR(rdpHdr{}, cat(rdpCookie2, rdpNeg)), "no"},
+			{"no cookie", rdpCR(rdpHdr{}, rdpNeg), "no"},
+			{"custom info instead of a cookie", rdpCR(rdpHdr{}, cat(rdpCustom, rdpNeg)), "no"},
+		},
+		source: "cookie_hash filter: the mstshash cookie equals the configured value",
+	},
+	{
+		fn: "modules/l4rdp.(*MatchRDP).Match", cfgName: "rdp cookie_hash=u", heap: rdpCfg("u", "", "", ""),
+		cases: []msgCase{
+			{"cookie of user", rdpCR(rdpHdr{}, cat(rdpCookie, rdpNeg)), "no"},
+			{"cookie of u", rdpCR(rdpHdr{}, cat([]byte("Cookie: mstshash=u\r\n"), rdpNeg)), "yes"},
+		},
+		source: "cookie_hash filter with a one-letter value",
+	},
+	{
+		fn: "modules/l4rdp.(*MatchRDP).Match", cfgName: "rdp cookie_hash_regexp=^us", heap: rdpCfg("", "^us", "", ""),
+		cases: []msgCase{
+			{"cookie of user", rdpCR(rdpHdr{}, cat(rdpCookie, rdpNeg)), "yes"},
+			{"cookie of other", rdpCR(rdpHdr{}, cat(rdpCookie2, rdpNeg)), "no"},
+			{"no cookie", rdpCR(rdpHdr{}, rdpNeg), "no"},
+		},
+		source: "cookie_hash_regexp filter",
+	},
+	{
+		fn: "modules/l4rdp.(*MatchRDP).Match", cfgName: "rdp custom_info", heap: rdpCfg("", "", "tsv://MS Terminal Services Plugin.1.Farm", ""),
+		cases: []msgCase{
+			{"that custom info", rdpCR(rdpHdr{}, cat(rdpCustom, rdpNeg)), "yes"},
+			{"another custom info", rdpCR(rdpHdr{}, cat([]byte("tsv://MS Terminal Services Plugin.1.Other\r\n"), rdpNeg)), "no"},
+			{"a cookie instead", rdpCR(rdpHdr{}, cat(rdpCookie, rdpNeg)), "no"},
+			{"nothing before the negotiation request", rdpCR(rdpHdr{}, rdpNeg), "no"},
+		},
+		source: "custom_info filter: the routing info before CR LF equals the configured value",
+	},
+	{
+		fn: "modules/l4rdp.(*MatchRDP).Match", cfgName: "rdp custom_info=x", heap: rdpCfg("", "", "x", ""),
+		cases: []msgCase{
+			{"custom info x", rdpCR(rdpHdr{}, cat([]byte("x\r\n"), rdpNeg)), "yes"},
+			{"custom info y", rdpCR(rdpHdr{}, cat([]byte("y\r\n"), rdpNeg)), "no"},
+			{"no custom info", rdpCR(rdpHdr{}, rdpNeg), "no"},
+		},
+		source: "custom_info filter with a one-letter value",
+	},
+	{
+		fn: "modules/l4rdp.(*MatchRDP).Match", cfgName: "rdp custom_info_regexp=x", heap: rdpCfg("", "", "", "x"),
+		cases: []msgCase{
+			{"custom info containing x", rdpCR(rdpHdr{}, cat([]byte("axb\r\n"), rdpNeg)), "yes"},
+			{"custom info without x", rdpCR(rdpHdr{}, cat([]byte("abc\r\n"), rdpNeg)), "no"},
+			{"no custom info", rdpCR(rdpHdr{}, rdpNeg), "no"},
+		},
+		source: "custom_info_regexp filter with a one-letter expression",
+	},
+	{
+		fn: "modules/l4rdp.(*MatchRDP).Match", cfgName: "rdp cookie_hash_regexp=u", heap: rdpCfg("", "u", "", ""),
+		cases: []msgCase{
+			{"cookie of user", rdpCR(rdpHdr{}, cat(rdpCookie, rdpNeg)), "yes"},
+			{"cookie of other", rdpCR(rdpHdr{}, cat(rdpCookie2, rdpNeg)), "no"},
+			{"no cookie", rdpCR(rdpHdr{}, rdpNeg), "no"},
+		},
+		source: "cookie_hash_regexp filter with a one-letter expression",
+	},
+	{
+		fn: "modules/l4rdp.(*MatchRDP).Match", cfgName: "rdp custom_info_regexp=Farm$", heap: rdpCfg("", "", "", "Farm$"),
+		cases: []msgCase{
+			{"matching custom info", rdpCR(rdpHdr{}, cat(rdpCustom, rdpNeg)), "yes"},
+			{"another custom info", rdpCR(rdpHdr{}, cat([]byte("tsv://MS Terminal Services Plugin.1.Other\r\n"), rdpNeg)), "no"},
+		},
+		source: "custom_info_regexp filter",
+	},
 	{
 		fn: "modules/l4winbox.(*MatchWinbox).Match", cfgName: "winbox any mode", heap: winboxCfg(true, true, "", ""),
 		cases: []msgCase{
@@ -725,7 +1033,7 @@ func c14TablesFor(c *Ctx, r *Report, rule, only string) {
 	if only != "" {
 		floor = 5
 	}
-	r.rule(rule, "verdict tables of the small matchers (ssh, proxy_protocol, xmpp, socks5, socks4): Match, evaluated path by path on first messages with fixed bytes (boundary and near-miss messages included; a read beyond the message answers need-more) under provisioned configurations, answers exactly what the reference predicate written from the protocol definition answers: matched / not matched / need more data", floor)
+	r.rule(rule, "verdict tables of the protocol matchers (ssh, proxy_protocol, xmpp, socks5, socks4, wireguard, postgres, winbox, rdp): Match, evaluated path by path on first messages with fixed bytes (boundary and near-miss messages included; a read beyond the message answers need-more) under provisioned configurations, answers exactly what the reference predicate written from the protocol definition answers: matched / not matched / need more data", floor)
 	for _, mm := range msgMatchers {
 		if only != "" && !strings.HasPrefix(mm.cfgName, only) {
 			continue
